@@ -24,11 +24,19 @@ class SR:
 
     def scalar(self, name):
         v = self.dom.input(name, 0, L - 1)
-        oid = self.ex.new_obj(self.path, self.ST, name=name, init=[absmodes.Abs(v, False, "mont")])
+        oid = self.ex.new_obj(self.path, self.ST, name=name, init=[scalarmode.SAbs(v, False, "mont")])
         return X.Ptr(oid), v
 
     def val(self, path, p):
         c = self.ex.load(path, X.Ptr(p.obj, p.path + (0,)))
+        ev = scalarmode.limbs_value(c)
+        if ev is not None:
+            # the result was written limb by limb (hand-written limb code on top of the fiat contracts): it must be a
+            # reduced Montgomery value; its meaning is eval(limbs) * R^-1
+            t0 = time.time()
+            r = self.dom.prove_le(path, ev, L - 1, "result limbs reduced")
+            self.chk.add(Ob("%s: result limbs (written by limb-level code) are a reduced scalar (< l)" % self.label, r, time.time() - t0, [self.fname], "scalar ring mode + materialised limbs / LIA"))
+            return ev.scale(scalarmode.RINV)
         return c.v
 
     def congr(self, path, name, got, want):
